@@ -624,7 +624,15 @@ pub fn run<G: LatticeGen>(sim: &mut Sim, mode: Mode) -> Outcome {
 
     // ---------------- fault phase
     if !w.drain(Some(horizon), 100_000) {
-        return Outcome { violation: Some(Violation::new("HARNESS/fault_phase_budget", "fault phase exceeded its event budget")), nontrivial: false, sim_time: w.events, discarded: false };
+        if mode == Mode::C02 {
+            // flag-driven forwarding: with truthful flags a replica forwards at most once per update
+            // it had not seen (<= 7n updates), so 10^5 events before the horizon means that merge
+            // keeps answering `true` without the value growing
+            let d = format!("flag-driven forwarding did not settle during the fault phase: {} events before t={horizon} with {} update(s) on {n} replicas", w.events, w.updates.len());
+            w.fail("c02_flood_not_quiescent", d);
+        } else {
+            w.fail("HARNESS/fault_phase_budget", "fault phase exceeded its event budget".into());
+        }
     }
     if w.viol.is_none() {
         // faults stop: heal, restart everybody from the durable snapshot
